@@ -224,8 +224,8 @@ Lemma give_back_inv s t v idle' closed' :
   Inv (give_back s t v idle' closed').
 Proof.
   intros I L Dv Nv Cv Wv Pv NDi Hi Hi2 Hc Hc2 Hf.
-  assert (Hhv : holds_slot (pcs v) = false) by (destruct (pcs v) as [| | | | |[|]| |]; simpl in *; congruence).
-  assert (Hcv : has_conn (pcs v) = false) by (destruct (pcs v) as [| | | | |[|]| |]; simpl in *; congruence).
+  assert (Hhv : holds_slot (pcs v) = false) by (destruct (pcs v) as [| | | | |[|]| | |]; simpl in *; congruence).
+  assert (Hcv : has_conn (pcs v) = false) by (destruct (pcs v) as [| | | | |[|]| | |]; simpl in *; congruence).
   assert (Hwv : pcs v <> PWaitSlot) by (intro E; rewrite E in Dv; discriminate).
   split; simpl; unfold pc_of; simpl.
   - apply NoDup_remove_t. apply (i_acq_nodup _ _ I).
@@ -240,7 +240,7 @@ Proof.
     left. destruct (i_ids _ _ I t) as [H|H]; [assumption|]. unfold pc_of in L. rewrite H in L. discriminate.
   - intro t'. tcase t' t; [|apply (i_local _ _ I)].
     split; rewrite ?Hcv; intros; try discriminate; auto.
-    destruct H as [H|H]; [congruence|]. destruct (pcs v) as [| | | | |[|]| |]; simpl in *; congruence.
+    destruct H as [H|H]; [congruence|]. destruct (pcs v) as [| | | | |[|]| | |]; simpl in *; congruence.
   - intros t' c. tcase t' t; [rewrite Hcv; discriminate|].
     intros A B. destruct (i_conn _ _ I t' c A B) as [X [Y Z]]. repeat split; auto.
     + intro H. destruct (Hc c H) as [H'|[H1 H2]]; [contradiction|].
@@ -272,12 +272,12 @@ Proof.
     destruct (has_conn (pc_of s t)) eqn:Hc.
     + destruct (i_conn _ _ I t c0 Hc E) as [_ [_ Z]]. contradiction.
     + assert (conn_of (tasks s t) = None); [|congruence].
-      apply (l_noconn _ Lt). unfold pc_of in *. destruct (pcs (tasks s t)) as [| | | | |[|]| |]; simpl in *; auto; discriminate.
+      apply (l_noconn _ Lt). unfold pc_of in *. destruct (pcs (tasks s t)) as [| | | | |[|]| | |]; simpl in *; auto; discriminate.
   - intros c. unfold close_conn_of. destruct (conn_of (tasks s t)) as [c0|] eqn:E; [|auto].
     rewrite In_add_closed. intros [->|H]; [|auto]. right. split; [|reflexivity].
     destruct (has_conn (pc_of s t)) eqn:Hc; [reflexivity|].
     assert (conn_of (tasks s t) = None); [|congruence].
-    apply (l_noconn _ Lt). unfold pc_of in *. destruct (pcs (tasks s t)) as [| | | | |[|]| |]; simpl in *; auto; discriminate.
+    apply (l_noconn _ Lt). unfold pc_of in *. destruct (pcs (tasks s t)) as [| | | | |[|]| | |]; simpl in *; auto; discriminate.
   - intros c H. unfold close_conn_of. destruct (conn_of (tasks s t)); [rewrite In_add_closed; auto|assumption].
   - intros fl a c _ E. unfold close_conn_of. rewrite E. rewrite In_add_closed. auto.
 Qed.
@@ -302,7 +302,7 @@ Lemma done_give_back_inv s t c :
        else give_back s t (done_ts (tasks s t)) (idle s ++ [c]) (closedc s)).
 Proof.
   intros I Hc E.
-  assert (L : live (pc_of s t) = true) by (destruct (pc_of s t) as [| | | | |[|]| |]; simpl in *; congruence).
+  assert (L : live (pc_of s t) = true) by (destruct (pc_of s t) as [| | | | |[|]| | |]; simpl in *; congruence).
   destruct (i_conn _ _ I t c Hc E) as [X [Y Z]].
   destruct (writer (tasks s t)); apply give_back_inv; simpl; auto; try discriminate.
   - apply (i_idle_nodup _ _ I).
@@ -320,10 +320,10 @@ Qed.
 (* ---- the step ------------------------------------------------------------------------------------- *)
 
 Lemma has_conn_live p : has_conn p = true -> live p = true.
-Proof. destruct p as [| | | | |[|]| |]; simpl; congruence. Qed.
+Proof. destruct p as [| | | | |[|]| | |]; simpl; congruence. Qed.
 
 Lemma has_conn_holds p : has_conn p = true -> holds_slot p = true.
-Proof. destruct p as [| | | | |[|]| |]; simpl; congruence. Qed.
+Proof. destruct p as [| | | | |[|]| | |]; simpl; congruence. Qed.
 
 (* same program counter class, same connection record: rearm / written / pause / latch ... *)
 Lemma same_class_keep old new :
@@ -338,7 +338,7 @@ Proof.
   - destruct (l_conn _ L H) as [c Ec]. split; intros; try congruence.
     + exists c. congruence.
     + destruct H4 as [E|E]; [rewrite E in H'; discriminate|].
-      destruct (pcs new) as [| | | | |[|]| |]; simpl in *; discriminate.
+      destruct (pcs new) as [| | | | |[|]| | |]; simpl in *; discriminate.
 Qed.
 
 Lemma step_inv g s e s' : Inv s -> step g s e = Some s' -> Inv s'.
@@ -440,14 +440,14 @@ Proof.
                 conn_of v = conn_of (tasks s t) -> Inv (set_task s t v)).
     { intros v A B C. apply set_task_inv; [assumption|]. apply same_class_keep; auto. }
     destruct (latched (tasks s t)) as [[| | | |]|]; try discriminate;
-      destruct k; destruct (pcs (tasks s t)) as [| | | | |[|]| |] eqn:P; try discriminate;
+      destruct k; destruct (pcs (tasks s t)) as [| | | | |[|]| | |] eqn:P; try discriminate;
       destruct (rp (tasks s t)) as [|[|]|]; try discriminate; simpl in H;
       try (injection H as <-; apply K; simpl; rewrite ?P; reflexivity);
       (destruct (conn_of (tasks s t)) as [c|] eqn:Ec; [|discriminate]; injection H as <-;
        apply wake_inv; apply done_give_back_inv; [assumption|unfold pc_of; rewrite P; reflexivity|assumption]).
   - (* ERead *)
     pose proof (i_local _ _ I t) as Lt.
-    destruct (pcs (tasks s t)) as [| | | | |[|]| |] eqn:P; try discriminate.
+    destruct (pcs (tasks s t)) as [| | | | |[|]| | |] eqn:P; try discriminate.
     destruct (latched (tasks s t)).
     + injection H as <-. apply fail_inv; [assumption|]. unfold pc_of. rewrite P. reflexivity.
     + injection H as <-. apply set_task_inv; [assumption|]. apply same_class_keep; auto.
@@ -465,16 +465,16 @@ Proof.
     destruct w.
     + destruct (awaiting (pcs (tasks s t))) eqn:A.
       * injection H as <-. apply fail_inv; [assumption|]. unfold pc_of.
-        destruct (pcs (tasks s t)) as [| | | | |[|]| |]; simpl in *; congruence.
+        destruct (pcs (tasks s t)) as [| | | | |[|]| | |]; simpl in *; congruence.
       * destruct (live (pcs (tasks s t))) eqn:L; [|discriminate]. injection H as <-.
         apply K; [now apply not_awaiting_live| |reflexivity]. simpl. now apply not_awaiting_live.
     + destruct (connecting (pcs (tasks s t))) eqn:A; [|discriminate]. injection H as <-.
-      apply fail_inv; [assumption|]. unfold pc_of. destruct (pcs (tasks s t)) as [| | | | |[|]| |]; simpl in *; congruence.
+      apply fail_inv; [assumption|]. unfold pc_of. destruct (pcs (tasks s t)) as [| | | | |[|]| | |]; simpl in *; congruence.
     + destruct (pcs (tasks s t)) eqn:P; try discriminate. injection H as <-.
       apply fail_inv; [assumption|]. unfold pc_of. rewrite P. reflexivity.
     + destruct (awaiting (pcs (tasks s t))) eqn:A.
       * injection H as <-. apply fail_inv; [assumption|]. unfold pc_of.
-        destruct (pcs (tasks s t)) as [| | | | |[|]| |]; simpl in *; congruence.
+        destruct (pcs (tasks s t)) as [| | | | |[|]| | |]; simpl in *; congruence.
       * destruct (live (pcs (tasks s t))) eqn:L; [|discriminate]. injection H as <-.
         apply K; [now apply not_awaiting_live| |reflexivity]. simpl. now apply not_awaiting_live.
 Qed.
